@@ -27,4 +27,29 @@ extern int  g_wmatch;
     __CPROVER_assigns(Addr, ResLen, __CPROVER_object_whole(Buffer))                              \
     __CPROVER_loop_invariant(Addr <= (LongWord)TransLen && (LongWord)ResLen <= Addr)             \
     __CPROVER_decreases((LongWord)TransLen - Addr)
+
+/* fill loop of OpenTarget: the image is created as header + RealFileLen fill bytes */
+extern long g_hdr;
+#define VERIF_LOOP_p2bin_fill                                                                   \
+    __CPROVER_assigns(Rest, Trans, gf[1].pos, gf[1].len, gf[1].w_val, gf[1].n_write_calls, gf[1].bytes_written, gf[1].io_error, verif_errno) \
+    __CPROVER_loop_invariant(Rest <= RealFileLen)                                                \
+    __CPROVER_loop_invariant(gf[1].pos == g_hdr + (long)RealFileLen - (long)Rest && gf[1].len == gf[1].pos) \
+    __CPROVER_loop_invariant(gf[1].w_off >= g_hdr || gf[1].w_val == __CPROVER_loop_entry(gf[1].w_val)) \
+    __CPROVER_loop_invariant(!(gf[1].w_off >= g_hdr && gf[1].w_off < gf[1].pos) || gf[1].w_val == FillVal) \
+    __CPROVER_decreases(Rest)
+
+/* ---- function contract: SelectedCount (number of byte addresses in [Start, Start+Len) kept by the -m selection) ----
+ * closed form per mode, independent of the code's counting loop */
+#include "datatypes.h"
+static Byte     SizeDiv;
+static LongWord ANDMask, ANDEq;
+#define P2BIN_MODE_OK ((SizeDiv == 1 && ANDMask == 0 && ANDEq == 0) || (SizeDiv == 2 && ANDMask == 1 && ANDEq <= 1) || \
+                       (SizeDiv == 4 && ANDMask == 3 && ANDEq <= 3) || (SizeDiv == 2 && ANDMask == 2 && (ANDEq == 0 || ANDEq == 2)))
+#define SPEC_CL(r) ((r) > ANDEq ? ((r) - ANDEq > 2 ? 2 : (r) - ANDEq) : 0)
+#define SPEC_BELOW(n) (ANDMask == 0 ? (LongWord)(n) : ANDMask == 1 ? (((LongWord)(n) + 1 - ANDEq) >> 1) : ANDMask == 3 ? (((LongWord)(n) + 3 - ANDEq) >> 2) \
+                       : (2 * ((LongWord)(n) >> 2) + SPEC_CL((LongWord)(n) & 3)))
+static LongWord SelectedCount(LongWord Start, LongWord Len)
+    __CPROVER_requires(P2BIN_MODE_OK && Len <= 0xfffffff8u)
+    __CPROVER_ensures(__CPROVER_return_value == (LongWord)(SPEC_BELOW((Start & 3) + Len) - SPEC_BELOW(Start & 3)))
+    __CPROVER_assigns();
 #endif
